@@ -350,7 +350,7 @@ func runC06(c *core.Ctx) core.Meta {
 	stUni := c.Rule("R06.uniform", "writes to a scalar destination (lane constant, SetVCC, SetEXEC, SetSCC) happen outside every lane loop with a lane-mask accumulator, or in a listed documented cross-lane instruction", 60)
 	stIdx := c.Rule("R06.index", "inside a lane loop the lane index is used only to select the lane (lane argument of operand accessors and helpers, bit position of a mask, index of a per-lane array); it never enters the arithmetic that produces the value written to the lane", 230)
 	stHoist := c.Rule("R06.hoist", "a vector handler (a function with a lane loop) reads an operand outside the loop, at a fixed lane, only if the operand can never be a vector register: for every format whose dispatcher reaches the handler (FormatType dispatch of the ALU's Run resolved per format), every store to that operand field in the format's decoder (FormatType dispatch of Disassembler.Decode) stores a freshly built non-register operand (the literal K of v_madak / v_fmaak / v_fmamk). An operand filled from an operand code (getOperand) or a register constructor may be a VGPR with a different value per lane", 3)
-	checkScratchPerLane(c, []string{emuPkg, cdna3Pkg})
+	checkScratchPerLane(c, "R06.scratch", []string{emuPkg, cdna3Pkg})
 	checkLaneLoopExits(c, []string{emuPkg, cdna3Pkg})
 	decArms := formatArms(c, c.SSAFunc(instsPkg, "Disassembler.Decode"))
 	aluArms := map[string]map[string]map[*ssa.Function]bool{}
